@@ -104,7 +104,7 @@ EnterEstablished(s) ==
                    !.estHold = IF n > 0 THEN s.now + n ELSE -1,
                    !.estKa = IF n > 0 THEN s.now + (IF k = 0 THEN 1 ELSE k) ELSE -1], "Established")
   IN IF s1.parkedNotif # <<>>
-     \* DEVIATION: a Cease parked by ResetPeer/ShutdownPeer while not established fires now
+     \* (no longer reachable: parkedNotif is never set since the repair b63010c)
      THEN GoIdle(SendNotif([s1 EXCEPT !.parkedNotif = <<>>], c, 6, s1.parkedNotif[1], s1.parkedNotif[2]), "notif")
      ELSE s1
 
@@ -113,7 +113,8 @@ EnterEstablished(s) ==
    Result <<>> = valid OPEN, else the NOTIFICATION <<code, sub>> *)
 HandleOpen(e) ==
   CASE e.ev = "Open" ->
-         CASE e.kind \in {"ok", "unsupopt"} -> <<>>      \* DEVIATION: unsupported optional parameter accepted
+         CASE e.kind = "ok" -> <<>>
+           [] e.kind = "unsupopt" -> <<2, 4>>              \* ValidateOpenMsg: unrecognised optional parameter
            [] e.kind = "badver" -> <<2, 1>>
            [] e.kind = "badas" -> <<2, 2>>
            [] e.kind = "badid" -> <<2, 3>>
@@ -124,11 +125,11 @@ HandleOpen(e) ==
          CASE e.kind = "marker" -> <<1, 1>>
            [] e.kind \in {"lenshort", "lenlong"} -> <<1, 2>>
            [] e.kind = "type" -> <<1, 3>>
-           [] OTHER -> <<5, 1>>                            \* DEVIATION: kalen parsed as a KEEPALIVE
+           [] OTHER -> <<1, 2>>                            \* kalen: BGPKeepAlive.DecodeFromBytes, Length # 19
     [] OTHER -> <<5, 1>>                                   \* KEEPALIVE, UPDATE, ROUTE-REFRESH, NOTIFICATION
 
-HeaderErr(e) == e.ev = "Garbage" /\ e.kind # "kalen"
-IsKeepalive(e) == e.ev = "Keepalive" \/ (e.ev = "Garbage" /\ e.kind = "kalen")   \* DEVIATION (kalen)
+HeaderErr(e) == e.ev = "Garbage"
+IsKeepalive(e) == e.ev = "Keepalive"
 
 (* ---------------------------------------------------------------------------------------- *)
 (* a message (or the neighbour's close) arrives on connection c *)
@@ -167,7 +168,8 @@ OpenConfirmRecv(s, e) ==     \* openconfirm()
   IF e.ev = "Close" THEN GoIdle([s EXCEPT ![c] = NoC], "read")
   ELSE IF IsKeepalive(e) THEN EnterEstablished(s)
   ELSE IF HeaderErr(e) THEN LET v == HandleOpen(e) IN GoIdle(SendNotif(s, c, v[1], v[2], ""), "invalid")
-  ELSE GoIdle(CloseC(s, c), "invalid")          \* DEVIATION: "send notification ?" - closes silently
+  ELSE IF e.ev = "Notif" THEN GoIdle(CloseC(s, c), "invalid")
+  ELSE GoIdle(SendNotif(s, c, 5, 2, ""), "invalid")       \* RFC 6608: unexpected message in OpenConfirm
 
 EstablishedRecv(s, e) ==     \* recvMessageloop() + established()
   LET c == s.cur
@@ -180,7 +182,7 @@ EstablishedRecv(s, e) ==     \* recvMessageloop() + established()
        THEN GoIdle(SendNotif([rearm EXCEPT !.admin = "PfxCt"], c, 6, 1, ""), "read")
        ELSE [rearm EXCEPT !.rib = Max(s.rib, e.n), !.holdBy = "upd"]
   ELSE IF e.ev = "Refresh" THEN s
-  ELSE IF e.ev = "Open" THEN s                   \* DEVIATION: OPEN in Established is passed up and ignored
+  ELSE IF e.ev = "Open" THEN GoIdle(SendNotif(s, c, 5, 3, ""), "notif")   \* RFC 6608: unexpected message in Established
   ELSE IF e.ev = "Notif" THEN GoIdle(CloseC(s, c), "notifrecv")
   ELSE LET v == HandleOpen(e) IN GoIdle(SendNotif(s, c, v[1], v[2], ""), "notif")
 
@@ -228,8 +230,7 @@ Enable(s) ==
 
 OneShot(s, sub, comm) ==      \* ShutdownPeer / ResetPeer: fsm.notification, one slot
   IF s.st = "Established" THEN GoIdle(SendNotif(s, s.cur, 6, sub, CommHex(comm)), "notif")
-  ELSE IF s.parkedNotif = <<>> THEN [s EXCEPT !.parkedNotif = <<sub, CommHex(comm)>>]   \* DEVIATION (parked)
-  ELSE s
+  ELSE s      \* queued in fsm.notification, but loop() empties that channel when Established is entered: dropped
 
 Delete(s) ==
   LET s1 == IF s.st = "Established" THEN SendNotif(s, s.cur, 6, 3, "")
